@@ -58,7 +58,7 @@ class PropertyGroup(ABC):
         self.name = name or "property_group"
         self.uid = uid or uuid.uuid4()
         self._allow_delete = True
-        self.on_file = on_file
+        self._on_file = False
         self._association: DataAssociationEnum = DataAssociationEnum.VERTEX
 
         if not hasattr(parent, "_property_groups"):
@@ -73,6 +73,7 @@ class PropertyGroup(ABC):
         parent.add_children([self])
 
         map_attributes(self, **kwargs)
+        self.on_file = on_file
 
         self.parent.workspace.register(self)
 
@@ -162,6 +163,7 @@ class PropertyGroup(ABC):
             raise TypeError("Name must be a string")
 
         self._name = new_name
+        self._update_on_file()
 
     @property
     def on_file(self):
@@ -221,6 +223,7 @@ class PropertyGroup(ABC):
     @property_group_type.setter
     def property_group_type(self, group_type: str):
         self._property_group_type = group_type
+        self._update_on_file()
 
     def remove_properties(self, data: Data | list[Data | uuid.UUID] | uuid.UUID):
         """
@@ -244,6 +247,13 @@ class PropertyGroup(ABC):
             return
 
         self.parent.workspace.add_or_update_property_group(self)
+
+    def _update_on_file(self):
+        """
+        Write the modified attributes of a stored property group to geoh5.
+        """
+        if getattr(self, "_on_file", False):
+            self.parent.workspace.add_or_update_property_group(self)
 
     @property
     def uid(self) -> uuid.UUID:
